@@ -226,6 +226,17 @@ theorem combineLC_randlen (trips : List (Trip' F)) (m : Nat) (hL : ∀ t ∈ tri
     obtain ⟨h1, h2⟩ := go_randlen trips m hL hn lc lc.terms _ a ⟨by simp [pnorm_nil_le], rfl⟩ ha
     exact ⟨h1, fun rs hrs => by simp only [h2] at hrs; cases hrs⟩
 
+theorem combineLC_shifted_none (trips : List (Trip' F)) (m : Nat) (hL : ∀ t ∈ trips, RandLen m t)
+    (hn : ∀ t ∈ trips, t.1.bound = none ∧ t.2.1.shifted = none)
+    (lc : LC.LinComb F) (res : Trip' F) (hc : combineLC trips lc = .ok res) :
+    res.2.1.shifted = none := by
+  unfold combineLC at hc
+  split at hc
+  · cases hc
+  · rename_i a ha
+    injection hc with hc; subst hc
+    exact (go_randlen trips m hL hn lc lc.terms _ a ⟨by simp [pnorm_nil_le], rfl⟩ ha).2
+
 /-! ### the constants subtracted by the verifier -/
 
 /-- the total the verifier subtracts from claimed values carrying label `lab` -/
@@ -328,12 +339,10 @@ theorem lc_complete {ck : CK F} {vk : VK F} {g γ β h : F} {D n m : Nat}
         = some (lcPolyValue l gr.2.1 lc.terms + lcConstant lc))
     (ξs : List F) (πs : List (KZG.Proof F)) (rest : List F)
     (ho : openCombinations ck (l.map (·.1)) (l.map (·.2.1)) (l.map (·.2.2)) lcs qs ξs = .ok (πs, rest))
-    (hnd : ∀ ts, combineAll l lcs = .ok ts →
-      GroupsND ck (ts.map (·.1)) (ts.map (·.2.1)) (groupQueries qs) ξs)
     (rs : List F) :
     checkCombinations vk (l.map (·.2.2)) lcs qs evals πs ξs rs = .ok true := by
   have hzip : (l.map (·.1)).zip ((l.map (·.2.1)).zip (l.map (·.2.2))) = l := by
-    clear hH hL hlab hev ho hnd
+    clear hH hL hlab hev ho
     induction l with
     | nil => rfl
     | cons t ts ih => simp only [List.map_cons, List.zip_cons_cons, ih]
@@ -356,7 +365,7 @@ theorem lc_complete {ck : CK F} {vk : VK F} {g γ β h : F} {D n m : Nat}
     rw [combineAllComm_eq l hlab3 lcs ts hts]
     simp only
     have hmem := combineAll_mem l lcs ts hts
-    refine batch_complete hwf ts ?_ ?_ ?_ qs (adjustEvals lcs evals) ?_ ξs πs rest ho (hnd ts hts) rs
+    refine batch_complete hwf ts ?_ ?_ ?_ qs (adjustEvals lcs evals) ?_ ξs πs rest ho ?_ rs
     · intro t ht
       obtain ⟨lc, _, hc⟩ := hmem t ht
       exact (combineLC_honest l hH lc t hc 0).1
@@ -399,6 +408,14 @@ theorem lc_complete {ck : CK F} {vk : VK F} {g γ β h : F} {D n m : Nat}
       congr 1
       rw [(combineLC_honest l hH lc t hc gr.2.1).2.2]
       ring
+    · -- combinations of unbounded polynomials carry no shifted blinding: the side condition is vacuous
+      apply groupsND_nonhiding
+      intro st hst rs' hrs
+      obtain ⟨t, ht, hte⟩ := List.mem_map.1 hst
+      obtain ⟨lc, _, hc⟩ := hmem t ht
+      have := combineLC_shifted_none l m hL hn lc t hc
+      rw [hte] at this
+      rw [this] at hrs; cases hrs
 
 end Marlin
 end PCV
